@@ -229,36 +229,40 @@ Record world := mkWorld {
   w_fs : str -> finput ;     (* each named input as the chosen decoder sees it; - is stdin *)
   w_expr_ok : bool ;         (* the expression parses *)
   w_null_out : evalout ;     (* the expression on the null document (EvaluateNew / empty eval-all input) *)
-  w_all_out : evalout        (* eval-all: the expression on all documents together *)
+  w_all_out : evalout ;      (* eval-all: the expression on all documents together *)
+  w_flush_ok : N -> bool     (* the write of this result's bytes to the output succeeds (writer.Flush after each result) *)
 }.
 
 Record pstate := mkP { p_shown : list N ; p_encoded : list N ; p_matched : bool }.
 Definition p0 : pstate := mkP [] [] false.
 
-(* PrintResults: per result set printedMatches, encode, stop at the first error *)
-Fixpoint print_results (fid : N) (nul : bool) (rs : list result) (p : pstate) : pstate * bool :=
+(* PrintResults: per result set printedMatches, encode, flush, stop at the first error *)
+Fixpoint print_results (fl : N -> bool) (fid : N) (nul : bool) (rs : list result) (p : pstate) : pstate * bool :=
   match rs with
   | [] => (p, true)
   | r :: rs' =>
       let m := p_matched p || counts_as_match (r_node r) in
       match enc_class fid nul (r_node r) with
       | EncErr => (mkP (p_shown p) (p_encoded p) m, false)
-      | EncOk c => print_results fid nul rs'
-                     (mkP (if c then p_shown p ++ [r_id r] else p_shown p) (p_encoded p ++ [r_id r]) m)
+      | EncOk c =>
+          if fl (r_id r)
+          then print_results fl fid nul rs'
+                 (mkP (if c then p_shown p ++ [r_id r] else p_shown p) (p_encoded p ++ [r_id r]) m)
+          else (mkP (p_shown p) (p_encoded p) m, false)    (* writer.Flush() failed: its error is returned *)
       end
   end.
 
-Definition print_eval (fid : N) (nul : bool) (e : evalout) (p : pstate) : pstate * bool :=
-  match e with EvalErr => (p, false) | EvalOk rs => print_results fid nul rs p end.
+Definition print_eval (fl : N -> bool) (fid : N) (nul : bool) (e : evalout) (p : pstate) : pstate * bool :=
+  match e with EvalErr => (p, false) | EvalOk rs => print_results fl fid nul rs p end.
 
 (* stream_evaluator.go Evaluate: decode, evaluate, print, next document *)
-Fixpoint eval_docs (fid : N) (nul : bool) (ds : list doc) (p : pstate) (count : nat) : pstate * bool * nat :=
+Fixpoint eval_docs (fl : N -> bool) (fid : N) (nul : bool) (ds : list doc) (p : pstate) (count : nat) : pstate * bool * nat :=
   match ds with
   | [] => (p, true, count)
   | DocBad :: _ => (p, false, count)
   | DocOk e :: ds' =>
-      let '(p', ok) := print_eval fid nul e p in
-      if ok then eval_docs fid nul ds' p' (S count) else (p', false, count)
+      let '(p', ok) := print_eval fl fid nul e p in
+      if ok then eval_docs fl fid nul ds' p' (S count) else (p', false, count)
   end.
 
 Fixpoint eval_files (w : world) (fid : N) (nul : bool) (names : list str) (p : pstate) (count : nat) : pstate * bool * nat :=
@@ -268,7 +272,7 @@ Fixpoint eval_files (w : world) (fid : N) (nul : bool) (names : list str) (p : p
       match w_fs w f with
       | Missing => (p, false, count)
       | Docs ds =>
-          let '(p', ok, count') := eval_docs fid nul ds p count in
+          let '(p', ok, count') := eval_docs (w_flush_ok w) fid nul ds p count in
           if ok then eval_files w fid nul fs p' count' else (p', false, count')
       end
   end.
@@ -278,7 +282,7 @@ Definition stream_run (w : world) (fid : N) (nul : bool) (names : list str) : ps
   let '(p, ok, count) := eval_files w fid nul names p0 O in
   if negb ok then (p, false)
   else match count with
-       | O => print_eval fid nul (w_null_out w) p     (* no document at all: EvaluateNew *)
+       | O => print_eval (w_flush_ok w) fid nul (w_null_out w) p     (* no document at all: EvaluateNew *)
        | _ => (p, true)
        end.
 
@@ -300,11 +304,11 @@ Definition all_run (w : world) (fid : N) (nul : bool) (names : list str) : pstat
   | None => (p0, false)
   | Some count =>
       if negb (w_expr_ok w) then (p0, false)
-      else print_eval fid nul (match count with O => w_null_out w | _ => w_all_out w end) p0
+      else print_eval (w_flush_ok w) fid nul (match count with O => w_null_out w | _ => w_all_out w end) p0
   end.
 
 Definition new_run (w : world) (fid : N) (nul : bool) : pstate * bool :=
-  if negb (w_expr_ok w) then (p0, false) else print_eval fid nul (w_null_out w) p0.
+  if negb (w_expr_ok w) then (p0, false) else print_eval (w_flush_ok w) fid nul (w_null_out w) p0.
 
 (* ------------------------------------------------------------------ *)
 (* the command                                                          *)
@@ -381,5 +385,9 @@ Fixpoint lookup_file (tbl : list (str * finput)) (name : str) : finput :=
   | (n, f) :: tbl' => if str_eqb n name then f else lookup_file tbl' name
   end.
 
-Definition c19_run_case (x : cli * list (str * finput) * (bool * evalout * evalout)) : list N :=
-  match x with (c, tbl, (eok, nullo, allo)) => run_obs (run c (mkWorld (lookup_file tbl) eok nullo allo)) end.
+(* sink = true: the output accepts writes; false: every write fails (stdout on a full device / read-only) *)
+Definition c19_run_case (x : cli * list (str * finput) * (bool * evalout * evalout) * bool) : list N :=
+  match x with (c, tbl, (eok, nullo, allo), sink) =>
+    let o := run c (mkWorld (lookup_file tbl) eok nullo allo (fun _ => sink)) in
+    o_exit o :: (if o_stderr o then 1 else 0) :: (if o_usage o then 1 else 0) :: N.of_nat (length (o_shown o)) :: o_shown o
+  end.
